@@ -26,7 +26,12 @@ Inductive case :=
 | CEdit (start : bytes) (b0 : list member) (ops : list edit_op)
         (obs : list (bool * list member * list member)) (reread : list (list member))
 (** NewMember(k, v) -> its Value(), NewKeyValueProperty(k, v) -> its Value(). *)
-| CCtor (k v : bytes) (om op : option bytes).
+| CCtor (k v : bytes) (om op : option bytes)
+(** Extract with header [hdr] (None = no header) on a context already carrying the baggage [parent]:
+    po = Parse(hdr) as observed (None = error / no header), res = members of the baggage in the
+    returned context, same = the returned context is the parent context itself. *)
+| CExtractInto (parent : list member) (hdr : option bytes) (po : option (list member))
+               (res : list member) (same : bool).
 
 Definition flag (b : bool) (code : N) : list N := if b then [] else [code].
 
@@ -257,6 +262,16 @@ Definition check_case (c : case) : list N :=
   | CCtor k v om op =>
       flag (ctor_mismatch k v om op) V_MISMATCH ++
       flag (ctor_spec k v om op) V_SPECFAIL
+  | CExtractInto parent hdr po res same =>
+      flag (let '(b, unchanged) := extract_into parent hdr in
+            map_eqb b res && Bool.eqb unchanged same &&
+            omap_eqb (match hdr with Some h => parse h | None => None end) po) V_MISMATCH ++
+      (* the extracted baggage is the parsed header exactly (never merged with what the context
+         carried), within the member limit; without a usable header the context is untouched *)
+      flag (match po, hdr with
+            | Some b, Some (_ :: _) => map_eqb res b && negb same && (blen res <=? LIMIT_MEMBERS)
+            | _, _ => same && map_eqb res parent
+            end) V_SPECFAIL
   end.
 
 Definition run (cs : list case) : list (N * N) := index_from 0 check_case cs.
